@@ -220,7 +220,7 @@ exemption list `p.keep`, `p.net` is what the library returns when it deactivates
 (`short_circuitify_voltage_sources` then `open_circuitify_current_sources`, record classes changed as the code
 changes them) and `p.rep` is ANY solution of `p.net`.  The exemption lists partition the active sources: every
 active source of `N` is exempted by exactly one group (`hpart`; passive elements may be listed or not; a
-network without active sources admits the empty list of groups).  Then for ANY solution `R` of `N`:
+network without active sources allows the empty list of groups).  Then for ANY solution `R` of `N`:
 * the potential of every node label and the voltage of every branch of `N` are the sums over the groups;
 * the reported current of every branch that is not a linear (lossy) source is the sum over the groups;
 * the reported current of a linear (lossy) source is the SIGNED sum: `+` the current reported in the group that
